@@ -28,9 +28,9 @@ CALLBACKS = ('landweber', 'cg', 'cg_normal', 'kaczmarz', 'mlem', 'osmlem',
 
 TIERS = {
     'C11': {'quick': {'runs': 16000, 'budget_s': 100, 'chunk': 50},
-            'thorough': {'runs': 250000, 'budget_s': 1500, 'chunk': 200}},
+            'thorough': {'runs': 800000, 'budget_s': 1800, 'chunk': 200}},
     'C12': {'quick': {'runs': 12000, 'budget_s': 100, 'chunk': 30, 'hang_s': 300},
-            'thorough': {'runs': 300000, 'budget_s': 1800, 'chunk': 100,
+            'thorough': {'runs': 600000, 'budget_s': 1800, 'chunk': 100,
                          'hang_s': 600}},
 }
 
